@@ -648,6 +648,11 @@ def py_hasattr(I, st, obj, name, node):
             return hasattr(list, nm)
         if isinstance(o, DictObj):
             return hasattr(dict, nm)
+        from .values import MatrixObj as _MatrixObj
+        if isinstance(o, _MatrixObj):
+            return hasattr(list, nm)                  # a nested list
+        if isinstance(o, SetObj):
+            return hasattr(set, nm)
     if obj is None:
         return hasattr(None, nm)
     if isinstance(obj, (str, int, tuple, Fraction)):
